@@ -343,6 +343,50 @@ impl TreeSys for Bools {
     }
 }
 
+/// aggregations of long structured series (DESIGN 5.14): 17 .. 4100 elements, so that an accumulation that
+/// is unrolled or processed in blocks is driven through its block boundaries
+fn aggs_long(thorough: bool, threads: usize) -> Ctx {
+    use AggOp::*;
+    let lens: Vec<usize> = if thorough { vec![17, 64, 257, 1030, 4100] } else { vec![17, 257, 1030] };
+    let mut items: Vec<(String, Vec<X>)> = vec![];
+    for len in lens {
+        items.extend(rollcheck::structured_shapes(len, true).into_iter().enumerate().filter(|(i, _)| len < 1000 || i % 3 == 0).map(|(_, s)| s));
+    }
+    par_items(&items, threads, |(label, x), ctx| {
+        let fam = "numeric-long";
+        let len = x.len();
+        ctx.states += 1;
+        ctx.transitions += 1;
+        ctx.fam(fam).states += 1;
+        ctx.nontrivial(fam, hash_bytes(format!("{label}{len}").as_bytes()));
+        let ops = [CountValid, CountNone, VFirst, VLast, VSum, VMean, VMax, VMin, VArgmax, VArgmin, VMeanVar(0), VVar(2), VStd(len), VSkew(0), VKurt(3)];
+        for op in ops {
+            let model = agg_model(op, x, &[]);
+            for (tname, run) in [("f64", run_agg_valid::<f64> as RunV), ("Option<f64>", run_agg_valid::<Option<f64>>)] {
+                for src in [Source::Owned, Source::TIter] {
+                    let got = match run(op, x, &[], src) {
+                        None => continue,
+                        Some(g) => g,
+                    };
+                    ctx.eval(fam, outcome_hash(&got));
+                    if let Some((exp, g)) = judge(&got, &model, cmp_of(op)) {
+                        ctx.violation(Violation {
+                            entry: op.name().into(),
+                            finding: None,
+                            size: 200_000 + len,
+                            case: json!({"family": fam, "shape": label, "len": len, "op": format!("{op:?}"), "elem": tname, "source": format!("{src:?}")}),
+                            expected: exp,
+                            got: g,
+                        });
+                    } else {
+                        ctx.traces += 1;
+                    }
+                }
+            }
+        }
+    })
+}
+
 fn main() {
     let run = Run::from_args("C11");
     let num = Numeric {
@@ -381,12 +425,14 @@ fn main() {
             "pairs" => pairs.check_word(&word, &mut ctx),
             "bools" => bools.check_word(&word, &mut ctx),
             "numeric-wide" => wide.check_word(&word, &mut ctx),
+            "numeric-long" => ctx.merge(aggs_long(!run.quick(), 1)),
             _ => num.check_word(&word, &mut ctx),
         }
         std::process::exit(finish_replay(&run, &stored, ctx));
     }
     let mut total = explore_tree(&num, run.threads);
     total.merge(explore_tree(&wide, run.threads));
+    total.merge(aggs_long(!run.quick(), run.threads));
     total.merge(explore_tree(&pairs, run.threads));
     total.merge(explore_tree(&bools, run.threads));
     let meta = Meta {
